@@ -1,6 +1,7 @@
 """C19 - every configured language is a relabelling of the same calculator. DESIGN.md 3.C19."""
 
 import datetime
+import re
 
 from . import gen_expr as ge
 from . import lex, mon
@@ -45,6 +46,8 @@ def spell_month_date(rng, lang, d, with_year, which):
     if not names:
         return None
     name = rng.choice(names)
+    if rng.random() < 0.3:
+        name = name[0].upper() + name[1:]          # as the calculator itself prints it ('12 Şubat', '5 March')
     return '%d %s%s' % (d.day, name, (' %d' % d.year) if with_year else '')
 
 
@@ -84,6 +87,46 @@ def value(slot):
     return v
 
 
+def datetime_in_every_language(ctx, drv, cfg, today):
+    """A date-time (only English has phrases that build one) held by a name of a session; the session is then switched to each
+    configured language and the name printed: the print must carry that language's own name of the month (long or short, as the
+    calculator capitalises it), the day and the time - whatever the format string of the language is."""
+    rng, res = ctx.rng, ctx.res
+    ops = list(mon.gh.config_ops(cfg))
+    cases = []
+    for _ in range(6):
+        d = gen_date(rng, today)
+        if rng.random() < 0.6:
+            try:
+                d = d.replace(year=today.year)
+            except ValueError:
+                continue
+        hh, mm = rng.randint(0, 23), rng.randint(0, 59)
+        ops += [{'op': 'session_new', 's': 5}, {'op': 'session_set_language', 's': 5, 'lang': 'en'},
+                {'op': 'session_set_text', 's': 5, 'text': 'zq = %d/%d/%d at %d:%02d' % (d.day, d.month, d.year, hh, mm)}, {'op': 'execute_session', 's': 5}]
+        for l in lex.languages():
+            ops += [{'op': 'session_set_language', 's': 5, 'lang': l}, {'op': 'session_set_text', 's': 5, 'text': 'zq'}, {'op': 'execute_session', 's': 5}]
+            cases.append((len(ops) - 1, l, d, hh, mm))
+    rs = drv.run(ops)
+    for idx, l, d, hh, mm in cases:
+        slot = mon.last_slot(rs[idx])
+        res.cases += 1
+        res.count('class:date-time-printed-in-each-language')
+        res.distinct.add('dtprint', l, str(d), hh, mm)
+        if mon.kind(slot) != 'datetime':
+            res.count('date_time_prints_not_judged')
+            continue
+        out = slot.get('out', '')
+        long_, short = lex.print_months(l)
+        names = {n[0].upper() + n[1:] for n in (long_[d.month] | short[d.month]) if n}
+        ok = any(n in out for n in names) and ('%02d:%02d:00' % (hh, mm)) in out and re.search(r'(^|[^0-9])0?%d([^0-9]|$)' % d.day, out)
+        if ok:
+            res.count('ok')
+        else:
+            res.violation('lang:print:datetime:%s' % l, 'the date-time %s %02d:%02d held by a name prints as %r under %s: expected the day, one of the month names %s and the time'
+                          % (d, hh, mm, out, l, sorted(names)), {'lang': l, 'ops': ops[:idx + 1]})
+
+
 def run_shard(ctx):
     rng = ctx.rng
     res = ctx.res
@@ -94,7 +137,11 @@ def run_shard(ctx):
     langs = lex.languages()
     others = [l for l in langs if l != 'en']
     codes = lex.rated_codes()
+    nbatch = 0
     while not ctx.out_of_time():
+        nbatch += 1
+        if nbatch % 5 == 1:
+            datetime_in_every_language(ctx, drv, cfg, today)
         cases = []   # (class, {lang: text}, oracle)
         for _ in range(80):
             r = rng.random()
@@ -142,6 +189,14 @@ def run_shard(ctx):
                         b = spell_dur(rng, l, [(n, unit)])
                         texts[l] = None if (a is None or b is None) else '%s %s %s' % (a, '+' if sign > 0 else '-', b)
                     cls, oracle = 'date-arith', ('date', want)
+                elif k < 0.66:
+                    # the number of days between two dates held by names (names of one or several words), in each language's range form
+                    d1, d2 = gen_date(rng, today), gen_date(rng, today)
+                    n1, n2 = rng.choice([('ilk tarih', 'son tarih'), ('zq', 'wv'), ('zq total', 'wv'), ('zq', 'wv rate'), ('günlük ücret', 'mk')])
+                    for l in langs:
+                        a, b = spell_month_date(rng, l, d1, True, 'numeric'), spell_month_date(rng, l, d2, True, 'numeric')
+                        texts[l] = '%s = %s\n%s = %s\n' % (n1, a, n2, b) + (('%s to %s' % (n1, n2)) if l == 'en' else ('%s %s arası' % (n1, n2)))
+                    cls, oracle = 'range-of-named-dates', ('duration', abs((d2 - d1).days) * 86400)
                 elif k < 0.8:
                     d = gen_date(rng, today)
                     which = rng.choice(['long', 'short', 'numeric'])
